@@ -1,20 +1,13 @@
 #!/bin/bash
-# Applies a seeded change to /repo, runs every registered quick check against it (evidence to a temp dir), undoes it.
-# usage: eval_mutant.sh <patch.diff> [property ids...]   (default: all)
+# Applies a seeded change to /repo, runs every registered check against it in one process (bwcheck checkall; evidence to a
+# temp dir so the committed evidence is not disturbed), undoes the change.
+# usage: eval_mutant.sh <patch.diff>
 set -u
 P=$(readlink -f "$1"); shift
 V=/verif
-props=${*:-$($V/bin/bwcheck list)}
 tmp=$(mktemp -d /tmp/bwev-XXXXXX); mkdir -p $tmp/evidence; cp $V/known_findings.json $tmp/
-git -C /repo apply "$P" || { echo "apply failed"; exit 2; }
+git -C /repo apply "$P" || { echo "apply failed"; rm -rf $tmp; exit 2; }
 trap 'git -C /repo checkout -q -- .; rm -rf $tmp' EXIT
-for p in $props; do
-  ( VERIF_DIR=$tmp $V/bin/bwcheck check -property $p > $tmp/$p.out 2>&1; echo "$p exit=$?" > $tmp/$p.rc ) &
-  while [ $(jobs -r | wc -l) -ge 6 ]; do sleep 0.2; done
-done
-wait
-for p in $props; do
-  rc=$(cat $tmp/$p.rc)
-  case "$rc" in *exit=0) ;; *) echo "$rc"; grep " rule=" $tmp/$p.out | cut -c1-260 | head -4;; esac
-done
+VERIF_DIR=$tmp $V/bin/bwcheck checkall -repo /repo > $tmp/all.out 2>&1
+grep -E "^C[0-9]+ exit=[12]| rule=" $tmp/all.out | grep -v KNOWN-FINDING | cut -c1-300
 echo "eval done"
